@@ -97,7 +97,10 @@ func NewParams(challengeDuration uint64, parts []map[wallet.BackendID]wallet.Add
 	if err := ValidateParameters(challengeDuration, len(parts), app, nonce); err != nil {
 		return nil, errors.WithMessage(err, "invalid parameter for NewParams")
 	}
-	for _, ps := range parts {
+	for i, ps := range parts {
+		if len(ps) == 0 {
+			return nil, errors.Errorf("participant %d has no address", i)
+		}
 		for id, p := range ps {
 			if backend[p.BackendID()] == nil {
 				return nil, errors.Errorf("no backend with id %d", p.BackendID())
